@@ -68,6 +68,7 @@ def parseSysOp (o : OState) : List String → Option Sys.Op
   | [_, name, "initerror", t, mode] => some (.agReport name "initerror" t mode)
   | [_, name, "exiterror", t, mode] => some (.agReport name "exiterror" t mode)
   | ["rt", "next"] => some .rtNext
+  | ["rt", "next", _via] => some .rtNext       -- the same call made by another local process (`via=<ext>`)
   | "rt" :: "response" :: idr :: size :: _ :: rest => do
     let bad := (rest.any fun w => w.startsWith "mode=" && w != "mode=streaming")
     some (.rtResponse (idRef o idr) (← size.toNat?) ((skv rest "h").getD "") bad)
@@ -89,12 +90,17 @@ def parseSysOp (o : OState) : List String → Option Sys.Op
   | ["shutdown"] => some .shutdown
   | _ => none
 
-/-- the actor and canonical call name of an API op (none for platform ops) -/
-def opActor : List String → Option (String × String)
-  | "rt" :: "raw" :: m :: p :: _ => some ("rt", s!"raw:{m}:{p}")
-  | "rt" :: c :: _ => some ("rt", c)
+/-- the actor and canonical call name of an API op (none for platform ops):
+    (process that makes the call, actor under which the answer is reported, call) -/
+def opActor : List String → Option (String × String × String)
+  | "rt" :: "raw" :: m :: p :: _ => some ("rt", "rt", s!"raw:{m}:{p}")
+  | "rt" :: c :: rest =>
+    -- `via=<ext>`: the Runtime API called by another local process
+    match rest.find? (·.startsWith "via=") with
+    | some v => some ((v.drop 4).toString, "rt", c)
+    | none => some ("rt", "rt", c)
   | k :: name :: c :: _ =>
-    if k == "ext" || k == "int" then some (name, if c.startsWith "next" then "next" else c) else none
+    if k == "ext" || k == "int" then some (name, name, if c.startsWith "next" then "next" else c) else none
   | _ => none
 
 /-- all states reachable by letting armed timers fire (each followed by settling), depth-bounded -/
@@ -142,14 +148,14 @@ def sysModel : NModel where
         let mid := pre.map fun s =>
           -- the calling process may have been killed by a timer-driven reset just before the call
           match actor with
-          | some (a, c) =>
-            if (procOf s a).isNone then s.emit s!"{a}.{c}=aborted" else settle v 400 (applyOp s op)
+          | some (pa, a, c) =>
+            if (procOf s pa).isNone then s.emit s!"{a}.{c}=aborted" else settle v 400 (applyOp s op)
           | none => settle v 400 (applyOp s op)
         acc ++ timerClosure v 3 mid) []
       -- … or while the request was in flight: the server processed it, the client saw an abort
       let all := all ++ (match actor with
-        | some (a, c) => all.filterMap fun s =>
-            if (procOf s a).isNone && s.outs.any (fun e => e.startsWith s!"{a}.{c}=" && !e.endsWith "=aborted") then
+        | some (pa, a, c) => all.filterMap fun s =>
+            if (procOf s pa).isNone && s.outs.any (fun e => e.startsWith s!"{a}.{c}=" && !e.endsWith "=aborted") then
               some { s with out := s.out.map fun o => match o with
                 | .line e => if e.startsWith s!"{a}.{c}=" then .line s!"{a}.{c}=aborted" else .line e
                 | o => o }
